@@ -202,6 +202,8 @@ class Tracker(CmdMixin, MboxMixin, SweepMixin, Monitor):
             self._on_cmd(world, st, d, ud)
         elif k == "drop":
             self._on_drop(world, st, d, ud)
+        elif k == "closing":
+            self._on_closing(world, st, d, ud)
         elif k == "sweep":
             self._on_sweep(world, st, d, ud)
         elif k in ("start", "stop"):
@@ -258,6 +260,18 @@ class Tracker(CmdMixin, MboxMixin, SweepMixin, Monitor):
             self.flag({"C07", "C08"} | also, "disconnect changed stored state", st, {"diff": _d(d), "udiff": _d(ud)})
         if st.frames:
             self.flag({"C02"}, "disconnect produced frames", st, {"frames": st.frames})
+
+    def _on_closing(self, world, st, d, ud):
+        """The connection's closing handshake has begun (its Close frame was processed, the connection is not lost
+        yet).  From here on it is disconnecting: nothing is owed to it any more (C02), nothing can reach it, and
+        nothing it leaves behind may disturb the others.  For the sweep and the status row it still counts as
+        connected until the drop, like in the server."""
+        cm = self.cm.get(st.conn)
+        if cm is not None:
+            cm.closing = True
+        self.ev["closing_changes_nothing"] += 1
+        if d or ud or st.frames:
+            self.flag({"C17"}, "begin of a closing handshake changed state or produced frames", st, {"diff": _d(d)})
 
     def _on_lifecycle(self, world, st, d, ud):
         if st.kind == "stop":
